@@ -191,6 +191,8 @@ class Editor:
                                     'move_def', 'rename_def', 'swap_lines', 'delete_block', 'append_use']
         if self.standalone:
             kinds = [x for x in kinds if x != 'paste'] + ['drop_header'] * 5 + ['insert_header'] * 2
+        if getattr(self, 'near_limit', False):
+            kinds = kinds + ['grow_tail'] * 8
         k = rng.choice(kinds)
         if not L:
             k = 'insert_line'
@@ -241,6 +243,11 @@ class Editor:
         elif k == 'delete_block':
             i = rng.randrange(len(L))
             del L[i:i + rng.randint(2, 6)]
+        elif k == 'grow_tail':
+            # a block is pasted at the END of the file (everything before keeps its position)
+            for _ in range(rng.randint(4, 14)):
+                self.n += 1
+                L.append(rng.choice(['# note %d about nothing in particular', 'tail_%d = 0', '']) .replace('%d', str(self.n)))
         elif k == 'drop_header':
             # the header line of a class/def disappears: its body falls into the preceding scope
             # without a single character of the body changing
@@ -417,7 +424,16 @@ def gen_case(seed, tier, i):
         opened = 1
     knobs = {'cached_size_trigger': rng.choice([1, 2, 8, 600]),
              'call_signatures_validity': rng.choice([0, 3.0, 3.0, 10**6]),
-             'fast_parser': rng.random() < 0.7}
+             'fast_parser': rng.random() < 0.7,
+             # buffers longer than this are cropped before parsing (10 MB by default: a size no
+             # generated buffer reaches, so the knob is lowered in some runs); unlike the cache
+             # knobs it changes what the right answer is, so the oracle gets it too
+             'cropped_file_size': rng.choice([10_000_000, 10_000_000, 10_000_000, 3000, 1800])}
+    if rng.random() < 0.3:
+        # just above the size of a buffer: a few insertions push it over the cropping limit
+        ed_near = rng.choice(editors)
+        ed_near.near_limit = True
+        knobs['cropped_file_size'] = len(ed_near.text) + rng.choice([40, 120, 300])
     max_steps = 12 if tier == 'quick' else 30
     nsteps = rng.randint(4, max_steps)
     ops = [{'op': 'knob', 'name': k, 'value': v} for k, v in sorted(knobs.items())]
@@ -516,7 +532,9 @@ def run_oracle(case, op, hashseed=None):
     root = driver.new_root('c08o')
     try:
         q = dict(op, tree=False)
-        spec = {'init': case['init'], 'ops': [q]}
+        pre = [{'op': 'knob', 'name': 'cropped_file_size', 'value': case['knobs']['cropped_file_size']}] \
+            if case.get('knobs', {}).get('cropped_file_size') else []
+        spec = {'init': case['init'], 'ops': pre + [q]}
         if case.get('cwd'):
             spec['cwd'] = case['cwd']
         return driver.run_subject(spec, root, hashseed=case.get('hashseed', 0) if hashseed is None else hashseed,
@@ -578,10 +596,10 @@ class C08(base.Engine):
                 continue
             o = run_oracle(case, op)
             stats['oracle_runs'] += 1
-            if not o.complete or len(o.events) != 1:
+            if not o.complete or not o.events:
                 return {'verdict': 'harness_error', 'detail': {'oracle': True, 'rc': o.rc, 'to': o.timed_out,
                                                                'stderr': o.stderr[-1500:]}}
-            ores = o.events[0]['res']
+            ores = o.events[-1]['res']
             if res['script'] != ores['script']:
                 problems.append(('script', {'op': i, 'got': res['script'], 'oracle': ores['script']}))
                 continue
@@ -597,7 +615,7 @@ class C08(base.Engine):
                     # is the oracle itself stable?
                     o2 = run_oracle(case, dict(op, probes=[p]), hashseed=case.get('hashseed', 0) + 17)
                     stats['oracle_runs'] += 1
-                    if o2.complete and o2.events and sort_result(o2.events[0]['res']['probes'][0]) != sort_result(b):
+                    if o2.complete and o2.events and sort_result(o2.events[-1]['res']['probes'][0]) != sort_result(b):
                         stats['oracle_unstable'] += 1
                         continue
                     problems.append(('stale:%s' % p['m'], {'op': i, 'buf': op.get('buf'), 'probe': p,
